@@ -377,7 +377,8 @@ def gen_value(rng, program, t, depth=0, as_key=False, safe=False):
         k, d = lookup(program, r[1], r[2])
         if k == "enum":
             vals = [b for _, b in d["values"]]
-            if rng.random() < 0.85 or as_key:
+            # a default or constant written in the IDL (safe) must be a declared number: validation rejects others
+            if rng.random() < 0.85 or as_key or safe:
                 return rng.choice(vals)
             return rand_int(rng, 32)
         return gen_struct_value(rng, program, d, depth)
